@@ -51,7 +51,7 @@ Min(a, c) == IF a < c THEN a ELSE c
 ObjInit ==
   /\ cfg \in {c \in Configs : Sensible(c)}
   /\ raw \in [Entries -> IF cfg.otype = "potential" THEN RawPot ELSE RawAmp]
-  /\ mask \in IF cfg.hasmask THEN [1..NPX -> MaskVals] ELSE {[p \in 1..NPX |-> Unit]}
+  /\ mask \in IF cfg.hasmask THEN [Entries -> MaskVals] ELSE {[e \in Entries |-> Unit]}      \* a mask may differ from slice to slice
   /\ stage = "raw"
   /\ b = [e \in Entries |-> <<raw[e], raw[e]>>]
   /\ hist = <<>>
@@ -77,7 +77,7 @@ Positivity == /\ stage = "based"
 \* field-of-view mask: value 1 keeps the entry, anything else may shrink it towards 0 by an unspecified amount
 Mask == /\ stage = "clamped"
         /\ ObjStep("Mask",
-                   [e \in Entries |-> IF cfg.fov /\ mask[PixOf(e)] # Unit
+                   [e \in Entries |-> IF cfg.fov /\ mask[e] # Unit
                                       THEN (IF cfg.otype = "potential" /\ ~cfg.pos THEN <<0 - Inf, Inf>> ELSE <<0, b[e][2]>>)
                                       ELSE b[e]], "masked")
 \* slice tying: the mean over slices - only claimed to tie; amplitude anywhere below the largest slice amplitude
@@ -91,7 +91,7 @@ Tie == /\ stage = "masked"
 ObjNext == Amp \/ Baseline \/ Positivity \/ Mask \/ Tie
 
 \* the property's claim, read off the final bounds
-ExactEntry(e) == ~cfg.tie /\ (~cfg.fov \/ mask[PixOf(e)] = Unit)
+ExactEntry(e) == ~cfg.tie /\ (~cfg.fov \/ mask[e] = Unit)
 AdmissibleObject ==
   stage = "done" =>
     \A e \in Entries :
@@ -99,10 +99,10 @@ AdmissibleObject ==
       /\ cfg.otype = "pure_phase" => (b[e][2] <= Unit /\ (ExactEntry(e) => b[e] = <<Unit, Unit>>))
       /\ (cfg.otype = "potential" /\ cfg.pos) => b[e][1] >= 0
 \* applying the pipeline to a value inside the final bounds keeps its amplitude where the pipeline is exact
-IdemEntry(e) == cfg.otype # "potential" /\ ~cfg.tie /\ (~cfg.fov \/ mask[PixOf(e)] \in {0, Unit})
+IdemEntry(e) == cfg.otype # "potential" /\ ~cfg.tie /\ (~cfg.fov \/ mask[e] \in {0, Unit})
 ObjEmit == stage = "done" =>
   PrintT(<<"CASE", ToJson([part |-> "object", ns |-> NS, npx |-> NPX, cfg |-> cfg,
-                           raw |-> [e \in Entries |-> raw[e]], mask |-> [p \in 1..NPX |-> mask[p]],
+                           raw |-> [e \in Entries |-> raw[e]], mask |-> [e \in Entries |-> mask[e]],
                            b |-> [e \in Entries |-> b[e]],
                            idem |-> [e \in Entries |-> IdemEntry(e)], steps |-> hist])>>)
 
